@@ -534,8 +534,8 @@ func (e *Exec) stmt(st *State, s ast.Stmt) {
 		}
 	case *ast.EmptyStmt:
 	case *ast.SendStmt:
-		e.ev(st, s.Value)
-		e.note("channel send dropped at " + e.posStr(s.Pos()))
+		e.sendsiteChecks(st, s, e.ev(st, s.Value))
+		e.note("channel send modelled as a ghost event only at " + e.posStr(s.Pos()))
 		e.ghostEvent(st, "send", e.ev(st, s.Chan), e.ev(st, s.Value))
 	default:
 		e.fail(s.Pos(), "unsupported statement %T", s)
